@@ -57,6 +57,11 @@ func NewRecorder(rng *rand.Rand, prof Profile) (*Recorder, error) {
 	if prof.SmallCache || prof.Exhaust {
 		cache = 2 + rng.Intn(4)
 	}
+	gh := uint32(0)
+	if (prof.SmallCache && rng.Intn(2) == 0) || (prof.Exhaust && rng.Intn(4) != 0) {
+		// a migrated network: the genesis block is above height 0 (cache refills and restarts must clamp to it)
+		gh = []uint32{1, 7, 50, 100000}[rng.Intn(4)]
+	}
 	keep := 0
 	switch rng.Intn(6) {
 	case 0:
@@ -75,15 +80,15 @@ func NewRecorder(rng *rand.Rand, prof Profile) (*Recorder, error) {
 		gts = now - uint32(k)*bt - bt/2
 	}
 	cfg := node.Config{NumValidators: nv, BatchSize: bs, Seed: int64(rng.Intn(1 << 30)), GenesisTimestamp: gts, BlockTime: bt,
-		MaxBlockCache: cache, KeepEventsForHeights: &keep, ExtraValidators: 1}
+		MaxBlockCache: cache, KeepEventsForHeights: &keep, ExtraValidators: 1, GenesisHeight: gh}
 	n, err := node.New(cfg)
 	if err != nil {
 		return nil, err
 	}
 	n.DrainEvents()
 	r := &Recorder{N: n, Rng: rng, Prof: prof, Tags: map[string]int{}, k: k, saved: map[uint32]*blockchain.Block{}}
-	r.Ops = append(r.Ops, fmt.Sprintf("reset nv=%d bs=%d seed=%d gts=%d bt=%d cache=%d keep=%d extra=1 %s %s",
-		nv, bs, cfg.Seed, gts, bt, cache, keep, BlockTokens(n.Genesis), ExecTokens(n, n.Cfg.GenesisHeight, nil, "")))
+	r.Ops = append(r.Ops, fmt.Sprintf("reset nv=%d bs=%d seed=%d gts=%d bt=%d cache=%d keep=%d extra=1 gh=%d %s %s",
+		nv, bs, cfg.Seed, gts, bt, cache, keep, gh, BlockTokens(n.Genesis), ExecTokens(n, n.Cfg.GenesisHeight, nil, "")))
 	return r, nil
 }
 
@@ -673,6 +678,11 @@ func (r *Recorder) Script() {
 	rng := r.Rng
 	p := r.Prof
 	n := r.N
+	if p.Exhaust && n.Cfg.GenesisHeight > 0 {
+		// cache exhaustion within reach of a genesis block above height 0: the refill must clamp to it
+		r.Extend(n.Cfg.MaxBlockCache + rng.Intn(2))
+		r.Exhaust()
+	}
 	r.Extend(1 + rng.Intn(4))
 	changed := false
 	for i := 0; i < p.Steps && r.Err == nil; i++ {
